@@ -1,8 +1,8 @@
 #!/bin/bash
-# seedbatch.sh C01 C18 ...  : import /tmp/seedwork/<P>/{A,B} into seeded/ and validate each against its own property check
+# seedbatch.sh C01 C18 ...  : import /tmp/seedwork/<P>/{$LETTERS, default A B} into seeded/ and validate each against its own property check
 cd /verif
 for P in "$@"; do
-  for X in A B; do
+  for X in ${LETTERS:-A B}; do
     src=/tmp/seedwork/$P/$X
     [ -f $src/patch.diff ] || continue
     mkdir -p seeded/$P-$X && cp $src/patch.diff $src/meta.json seeded/$P-$X/ && cp $src/*_test.go seeded/$P-$X/ 2>/dev/null
